@@ -328,6 +328,21 @@ theorem sstep_newLoop {s : Sig} (hc : c.code = .newLoop s :: rest) : StepOK P c 
     have := SStep.open (P := P) (v := c.sv) (s := s) hc (bfalse hf)
     simpa [Cfg.sv, Cfg.trace, shapeTr_cons, Tr.shape] using this
 
+/-- `execute_new_loop`, not force-quit: the step itself -/
+theorem step_newLoop {s : Sig} (hc : c.code = .newLoop s :: rest) (hf : c.L.forceQuit = false) :
+    ∃ c1, step P c = .ok c1 ∧
+      c1.sv = { c.sv with code := .mainCheck c.sv.nq :: rest, levels := c.sv.levels ++ [c.sv.nq], active := c.sv.nq,
+                          nq := c.sv.nq + 1, ev := .openLevel c.sv.nq c.sv.runLoop :: c.sv.ev } := by
+  unfold step; simp only [hc, hf]
+  refine ⟨_, rfl, ?_⟩
+  simp only [sv_push, sv_enqueue]
+  simp [Cfg.sv, Cfg.trace, shapeTr_cons, Tr.shape, hf]
+
+/-- the end of `execute_new_loop` / `run`: `_run_loop` is set again -/
+theorem step_restoreRun (hc : c.code = .restoreRun :: rest) (hf : c.L.forceQuit = false) :
+    step P c = .ok { c with code := rest, L := { c.L with runLoop := true } } := by
+  unfold step; simp only [hc, hf]; rfl
+
 theorem sstep_closeLoop (hc : c.code = .closeLoop :: rest) : StepOK P c := by
   unfold StepOK step; simp only [hc]
   exact ⟨SStep.batch' (v := c.sv) hc (.closeLoop _) rfl, ⟨[_, _], rfl⟩⟩
